@@ -14,7 +14,7 @@ import (
 
 func drawC14(rt *rapid.T, tier string) SrvScenario {
 	o := srvDrawOpts{backends: []string{"cdb", "cdb", "cdb", "rdb1", "rdb2"}, maxClients: 4, maxQueries: 5, maxOps: 5,
-		faults: []string{"missing", "nokey", "inject"}, closeOp: true, periodic: true, stats: true}
+		faults: []string{"missing", "nokey", "inject", "lowio"}, closeOp: true, periodic: true, stats: true}
 	if tier == "thorough" {
 		o.backends = []string{"cdb", "rdb1", "rdb2"}
 		o.maxQueries = 7
